@@ -168,7 +168,14 @@ class HistRunner:
             if n in p.user or t.get('phony') or t.get('linkout') or not os.path.isfile(fp) or os.path.islink(fp) or not m.R[n].built or m.R[n].owner == 'user':
                 return False
             st = os.stat(fp)
-            os.chmod(fp, (st.st_mode & 0o777) ^ 0o044)
+            # never a mode this file (this inode) has had before: a second chmod must not restore the state redo recorded
+            seen = self.__dict__.setdefault('modes_seen', {}).setdefault((n, st.st_ino), set())
+            seen.add(st.st_mode & 0o777)
+            new_mode = next((mo for mo in (0o600, 0o640, 0o664, 0o666, 0o604, 0o660, 0o606, 0o444, 0o440, 0o400) if mo not in seen), None)
+            if new_mode is None:
+                return False
+            seen.add(new_mode)
+            os.chmod(fp, new_mode)
             os.utime(fp, ns=(st.st_atime_ns, st.st_mtime_ns))
             m.R[n].meta_changed = True
         elif k == 'watch_during':
